@@ -33,9 +33,11 @@ class Select(Block):
                 self.bound_var = binding_split[1].strip()
         elif self.select_type == 3:
             self.binding_type = select_info.binding
-        # Close previous "TYPE IS" region if open
+        # A type guard closes the previous "TYPE IS" region if open; a SELECT
+        # construct nested inside the region does not
         if (
-            (file_ast.current_scope is not None)
+            self.is_type_region()
+            and (file_ast.current_scope is not None)
             and (file_ast.current_scope.get_type() == SELECT_TYPE_ID)
             and file_ast.current_scope.is_type_region()
         ):
